@@ -161,6 +161,66 @@ Theorem C16_short_mask_refuted : forall b a, wf_ip (V6 b) -> wf_ip (V6 a) ->
   N.shiftr b 96 = N.shiftr a 96 -> contains (V6 b, 32%N) (V6 a) = true.
 Proof. exact short_mask_matches_neighbours. Qed.
 
+(* ---- configuration histories (start, then reloads) ----------------------------
+   Hub.Reload / BackendServer.Reload / ProxyServer.Reload read the options again.  The
+   configuration in effect (Run_C16.in_effect) is the last valid one loaded; an option that
+   is absent from a file is an empty one. *)
+
+(* the model's fold over the reloads computes the list of the configuration in effect *)
+Theorem C16_history_in_effect : forall parse_ip parse_cidr d st rl,
+  history_list parse_ip parse_cidr d st rl =
+  match in_effect parse_ip parse_cidr st rl with
+  | Some cfg => match spec_nets parse_ip parse_cidr cfg with
+                | Some l => Some (or_default d l) | None => None end
+  | None => None
+  end.
+Proof. exact history_list_spec. Qed.
+
+(* after any sequence of reloads the server answers every request exactly as a server
+   freshly started with the configuration in effect *)
+Theorem C16_reload_as_fresh_hub : forall parse_ip split_host_port parse_cidr st rl cfg peer xr xff,
+  in_effect parse_ip parse_cidr st rl = Some cfg ->
+  step parse_ip split_host_port parse_cidr (OHistHub st rl peer xr xff) =
+  step parse_ip split_host_port parse_cidr (OCfgHub cfg peer xr xff).
+Proof. exact hist_hub_as_fresh. Qed.
+Theorem C16_reload_as_fresh_stats : forall parse_ip split_host_port parse_cidr e st rl tcfg acfg peer xr xff,
+  in_effect parse_ip parse_cidr (fst st) (map fst rl) = Some tcfg ->
+  in_effect parse_ip parse_cidr (snd st) (map snd rl) = Some acfg ->
+  step parse_ip split_host_port parse_cidr (OHistStats e st rl peer xr xff) =
+  step parse_ip split_host_port parse_cidr (OCfgStats e tcfg acfg peer xr xff).
+Proof. exact hist_stats_as_fresh. Qed.
+
+(* what is in effect after the last reload: nothing if the option was removed from the
+   file (the default list applies again, whatever was configured before); the new text if
+   it is valid; what was in effect before if the new text is refused *)
+Theorem C16_reload_removed_option : forall parse_ip parse_cidr st rl,
+  config_valid parse_ip parse_cidr (cfg_text st) = true ->
+  in_effect parse_ip parse_cidr st (rl ++ [None]) = Some "".
+Proof. exact in_effect_removed. Qed.
+Theorem C16_reload_valid_replaces : forall parse_ip parse_cidr st rl o,
+  config_valid parse_ip parse_cidr (cfg_text st) = true ->
+  config_valid parse_ip parse_cidr (cfg_text o) = true ->
+  in_effect parse_ip parse_cidr st (rl ++ [o]) = Some (cfg_text o).
+Proof. exact in_effect_replaced. Qed.
+Theorem C16_reload_refused_keeps : forall parse_ip parse_cidr st rl o,
+  config_valid parse_ip parse_cidr (cfg_text o) = false ->
+  in_effect parse_ip parse_cidr st (rl ++ [o]) = in_effect parse_ip parse_cidr st rl.
+Proof. exact in_effect_refused. Qed.
+
+(* consequently: after the allow-list option has been removed, the gate is that of the
+   default list (127.0.0.1 only), for every earlier history *)
+Theorem C16_reload_removed_allow_list_is_default :
+  forall parse_ip split_host_port parse_cidr e st rl tcfg last_t peer xr xff,
+  config_valid parse_ip parse_cidr (cfg_text (snd st)) = true ->
+  in_effect parse_ip parse_cidr (fst st) (map fst (rl ++ [(last_t, None)])) = Some tcfg ->
+  step parse_ip split_host_port parse_cidr (OHistStats e st (rl ++ [(last_t, None)]) peer xr xff) =
+  step parse_ip split_host_port parse_cidr (OCfgStats e tcfg "" peer xr xff).
+Proof.
+  intros pi sh pc e st rl tcfg last_t peer xr xff Hs Ht.
+  apply hist_stats_as_fresh; [exact Ht|].
+  rewrite map_app. cbn [map snd]. apply in_effect_removed. exact Hs.
+Qed.
+
 (* CIDR arithmetic: the mask test of net.IPNet.Contains is equality of the top
    `len` bits — as quotient/remainder, as shifts, bit by bit. *)
 Theorem C16_contains_top_bits : forall n a, contains n a = in_net n a.
@@ -260,6 +320,31 @@ Example C16_ex_config :
     [(OCfgAllowed "2001:db8::1" (V6 42540766416916187176308156905784606725), VBool true)] = false.
 Proof. vm_compute. repeat split; reflexivity. Qed.
 
+(* configuration histories: an allow-list option that is removed on reload no longer
+   lets its former addresses in; the predicate rejects a server that keeps the old list,
+   one that keeps trusting a proxy whose entry was removed, and accepts the model *)
+Definition ex_parse_h : string -> option ip :=
+  lookup [("10.9.9.9", V4 168364297); ("127.0.0.1", V4 2130706433); ("8.8.8.8", V4 134744072)].
+Definition ex_split_h : string -> option string :=
+  lookup [("10.9.9.9:1", "10.9.9.9"); ("127.0.0.1:9", "127.0.0.1"); ("8.8.8.8:7", "8.8.8.8")].
+Example C16_ex_history :
+  in_effect ex_parse_h ex_cidr (Some "127.0.0.1, 10.9.9.9") [Some "10.9.9.9"; None] = Some "" /\
+  in_effect ex_parse_h ex_cidr (Some "10.9.9.9") [Some "nonsense"] = Some "10.9.9.9" /\
+  in_effect ex_parse_h ex_cidr (Some "nonsense") [Some "10.9.9.9"] = None /\
+  step ex_parse_h ex_split_h ex_cidr
+    (OHistStats 0 (None, Some "127.0.0.1, 10.9.9.9") [(None, None)] "10.9.9.9:1" [] []) = VStatus 403 /\
+  step ex_parse_h ex_split_h ex_cidr
+    (OHistStats 0 (None, Some "127.0.0.1, 10.9.9.9") [(None, Some "nonsense")] "10.9.9.9:1" [] []) = VStatus 200 /\
+  P_C16 ex_parse_h ex_split_h ex_cidr
+    [(OHistStats 0 (None, Some "127.0.0.1, 10.9.9.9") [(None, None)] "10.9.9.9:1" [] [], VStatus 200)] = false /\
+  P_C16 ex_parse_h ex_split_h ex_cidr
+    [(OHistStats 0 (None, Some "10.9.9.9") [(None, None)] "127.0.0.1:9" [] [], VStatus 403)] = false /\
+  P_C16 ex_parse_h ex_split_h ex_cidr
+    [(OHistHub (Some "8.8.8.8") [None] "8.8.8.8:7" ["127.0.0.1"] [], VAddr "127.0.0.1")] = false /\
+  P_C16 ex_parse_h ex_split_h ex_cidr
+    [(OHistHub (Some "8.8.8.8") [None] "8.8.8.8:7" ["127.0.0.1"] [], VAddr "8.8.8.8")] = true.
+Proof. vm_compute. repeat split; reflexivity. Qed.
+
 Print Assumptions C16_untrusted_peer_ignores_headers.
 Print Assumptions C16_direct_client_cannot_spoof.
 Print Assumptions C16_direct_client_same_gate.
@@ -276,6 +361,13 @@ Print Assumptions C16_bare_entry_exact.
 Print Assumptions C16_configured_iff.
 Print Assumptions C16_config_direct_client.
 Print Assumptions C16_short_mask_refuted.
+Print Assumptions C16_history_in_effect.
+Print Assumptions C16_reload_as_fresh_hub.
+Print Assumptions C16_reload_as_fresh_stats.
+Print Assumptions C16_reload_removed_option.
+Print Assumptions C16_reload_valid_replaces.
+Print Assumptions C16_reload_refused_keeps.
+Print Assumptions C16_reload_removed_allow_list_is_default.
 Print Assumptions C16_contains_top_bits.
 Print Assumptions C16_contains_prefix.
 Print Assumptions C16_contains_bits.
